@@ -131,7 +131,11 @@ def worker(args, scratch):
                 if fr < 0.12:
                     fault = ("status", r.choice([{"kind": "status", "code": 500}, {"kind": "status", "code": 404}, {"kind": "reset"},
                                                  {"kind": "body", "body": b"{not json"}, {"kind": "body", "body": b'{"version":"2.0"}'},
-                                                 {"kind": "body", "body": json.dumps({"authorizationScheme": "Azure-HMAC-SHA256", "keyDeliveryMethod": "http", "version": "1.0", "secureChannelState": "bogus"}).encode()}]))
+                                                 {"kind": "body", "body": json.dumps({"authorizationScheme": "Azure-HMAC-SHA256", "keyDeliveryMethod": "http", "version": "1.0", "secureChannelState": "bogus"}).encode()},
+                                                 # a document that carries the OTHER version's field instead of its own is invalid too
+                                                 {"kind": "body", "body": json.dumps({"authorizationScheme": "Azure-HMAC-SHA256", "keyDeliveryMethod": "http", "version": "2.0", "secureChannelState": "Wireserver"}).encode()},
+                                                 {"kind": "body", "body": json.dumps({"authorizationScheme": "Azure-HMAC-SHA256", "keyDeliveryMethod": "http", "version": "1.0", "secureChannelEnabled": True}).encode()},
+                                                 {"kind": "body", "body": json.dumps({"authorizationScheme": "Azure-HMAC-SHA256", "keyDeliveryMethod": "http", "version": "2.0", "secureChannelState": "WireserverAndImds", "keyGuid": None}).encode()}]))
                 elif fr < 0.2:
                     fault = ("acquire", r.choice([{"kind": "status", "code": 500}, {"kind": "body", "body": b'{"guid": 5}'}, {"kind": "reset"}]))
                 elif fr < 0.27:
